@@ -234,6 +234,7 @@ type RunSummary struct {
 	ModelHits    int                 `json:"model_hits"`
 	IntQ         int                 `json:"int_encoded_queries"`
 	CacheHits    int                 `json:"query_cache_hits"`
+	RegexQ       int                 `json:"regex_language_queries"`
 	CrossChecked int                 `json:"cross_checked"`
 	CrossUnknown int                 `json:"cross_unknown"`
 	Functions    []string            `json:"functions_encoded"`
@@ -496,6 +497,7 @@ func runHarnesses(ld *Loaded, cfg *RunConfig, harnesses []string, workers int, m
 			}
 			sum.IntQ += in.stats.IntQ
 			sum.CacheHits += in.stats.CacheHits
+			sum.RegexQ += in.stats.RegexQ
 			sum.Instrs += in.stats.Instrs
 			sum.Summaries += in.stats.Summaries
 			sum.FactHits += in.stats.FactHits
